@@ -90,13 +90,25 @@ func runC06(r *Run) {
 		if ser != nil {
 			r.ExpectArg(ser, "signV1TreeHead:input", 0, "*p1")
 		}
-		if w := r.OneCall(fn, "signV1TreeHead:hash-write", "iface(hash.Hash).Write"); w != nil {
+		// the digest signed is SHA-256 of the serialized tree head: New/Write/Sum(nil) over it, or the one-shot
+		// sha256.Sum256 of it handed to Sign in full
+		sign := r.OneCall(fn, "signV1TreeHead:sign", "iface(crypto.Signer).Sign")
+		var oneShot ssa.CallInstruction
+		if sign != nil {
+			oneShot = c06OneShotSHA256(fn, CallArgs(sign)[2], sign)
+		}
+		if oneShot != nil {
+			r.Pass("signV1TreeHead:sign.digest", r.Where(sign), "arg 2 of iface(crypto.Signer).Sign = "+r.D.D(CallArgs(sign)[2])+": the whole, unmodified result of one sha256.Sum256 call")
+			r.ExpectArg(oneShot, "signV1TreeHead:hash.bytes", 0, "ct.SerializeSTHSignatureInput(*p1)#0")
+		} else if w := r.OneCall(fn, "signV1TreeHead:hash-write", "iface(hash.Hash).Write"); w != nil {
 			r.ExpectArg(w, "signV1TreeHead:hash.h", 0, "sha256.New()")
 			r.ExpectArg(w, "signV1TreeHead:hash.bytes", 1, "ct.SerializeSTHSignatureInput(*p1)#0")
 		}
-		if c := r.OneCall(fn, "signV1TreeHead:sign", "iface(crypto.Signer).Sign"); c != nil {
+		if c := sign; c != nil {
 			r.ExpectArg(c, "signV1TreeHead:sign.signer", 0, "p0")
-			r.ExpectArg(c, "signV1TreeHead:sign.digest", 2, "iface(hash.Hash).Sum(sha256.New(*), nil)")
+			if oneShot == nil {
+				r.ExpectArg(c, "signV1TreeHead:sign.digest", 2, "iface(hash.Hash).Sum(sha256.New(*), nil)")
+			}
 			r.ExpectArg(c, "signV1TreeHead:sign.opts", 3, "5")
 		}
 		if g := r.OneCall(fn, "signV1TreeHead:cache-get", "(*trillian/ctfe.SignatureCache).GetSignature"); g != nil {
@@ -104,7 +116,13 @@ func runC06(r *Run) {
 		}
 		if s := r.OneCall(fn, "signV1TreeHead:cache-set", "(*trillian/ctfe.SignatureCache).SetSignature"); s != nil {
 			r.ExpectArg(s, "signV1TreeHead:cache-set.key", 1, "ct.SerializeSTHSignatureInput(*p1)#0")
-			r.ExpectArg(s, "signV1TreeHead:cache-set.sig", 2, "p1.TreeHeadSignature")
+			// the signature cached is the one this call hands out in the STH: read back from sth.TreeHeadSignature, or
+			// the very value that was stored into it before the cache is set
+			if sig := CallArgs(s)[2]; c06IsValueStored(r, fn, sig, "&(p1.TreeHeadSignature)", s) {
+				r.Pass("signV1TreeHead:cache-set.sig", r.Where(s), "arg 2 of "+CalleeOf(s)+" = "+r.D.D(sig)+": the value just stored into p1.TreeHeadSignature")
+			} else {
+				r.ExpectArg(s, "signV1TreeHead:cache-set.sig", 2, "p1.TreeHeadSignature")
+			}
 		}
 		// the cached signature is used only on the ok edge
 		hit := "(*trillian/ctfe.SignatureCache).GetSignature(*)#1"
@@ -171,7 +189,18 @@ func runC06(r *Run) {
 	for _, k := range keysOf(w) {
 		r.Check("who-writes:sthGetter@"+k, k == "trillian/ctfe.newLogInfo", r.Where(w[k][0]), k+" assigns logInfo.sthGetter")
 	}
-	r.Check("who-writes:sthGetter", len(w["trillian/ctfe.newLogInfo"]) >= 3, "-", fmt.Sprintf("newLogInfo assigns the getter on %d paths (frozen / mirror / log)", len(w["trillian/ctfe.newLogInfo"])))
+	// newLogInfo assigns a getter of its own for each kind of log: three assignments, or fewer assignments of a
+	// value that merges (φ) the alternatives selected before — what counts is the number of distinct values
+	// that can be assigned
+	nGetters := map[ssa.Value]bool{}
+	for _, in := range w["trillian/ctfe.newLogInfo"] {
+		if st, ok := in.(*ssa.Store); ok {
+			for _, leaf := range phiLeaves(st.Val) {
+				nGetters[leaf] = true
+			}
+		}
+	}
+	r.Check("who-writes:sthGetter", len(nGetters) >= 3, "-", fmt.Sprintf("newLogInfo assigns the getter on %d paths (frozen / mirror / log)", len(nGetters)))
 	if fn := r.Fn("trillian/ctfe.getSTH"); fn != nil {
 		r.Check("getSTH:no-direct-rpc", len(CallsTo(fn, "iface(trillian.TrillianLogClient).*")) == 0, r.FnPos(fn), "the get-sth handler issues no backend call of its own")
 		if c := r.OneCall(fn, "getSTH:getter", "(*trillian/ctfe.logInfo).getSTH"); c != nil {
@@ -237,18 +266,7 @@ func c06Forwarding(r *Run) {
 		if j := r.OneCall(fn, "consistency:json", "json.Marshal"); j != nil {
 			a := baseAlloc(c06Built(CallArgs(j)[0], j))
 			if a != nil {
-				for _, st := range r.StoresTo(fn, "&("+r.D.allocName(a)+".Consistency)") {
-					got := r.D.D(st.Val)
-					r.Check("consistency:rsp", anyGlob("iface(trillian.TrillianLogClient).GetConsistencyProof(*)#0.Proof.Hashes || g:trillian/ctfe.emptyProof", got), r.Where(st), "Consistency ← "+got)
-				}
-				// with first != 0 and a non-nil hash list the relayed proof is the backend's
-				got := ""
-				for _, st := range r.StoresTo(fn, "&("+r.D.allocName(a)+".Consistency)") {
-					if glob("*Proof.Hashes", r.D.D(st.Val)) {
-						got = r.D.D(st.Val)
-					}
-				}
-				r.Check("consistency:rsp.relayed", got != "", r.Where(j), "the backend's proof hashes are relayed: "+got)
+				c06RelayedOrEmpty(r, fn, "consistency:rsp", "consistency:rsp.relayed", a, "Consistency", "iface(trillian.TrillianLogClient).GetConsistencyProof(*)#0.Proof.Hashes", j)
 			}
 		}
 	}
@@ -276,10 +294,13 @@ func c06Forwarding(r *Run) {
 			})
 		}
 		if j := r.OneCall(fn, "proof:json", "json.Marshal"); j != nil {
-			r.ExpectFields(fn, "proof:rsp", c06Built(CallArgs(j)[0], j), map[string]string{
+			built := c06Built(CallArgs(j)[0], j)
+			r.ExpectFields(fn, "proof:rsp", built, map[string]string{
 				"LeafIndex": "iface(trillian.TrillianLogClient).GetInclusionProofByHash(*)#0.Proof[0].LeafIndex",
-				"AuditPath": "iface(trillian.TrillianLogClient).GetInclusionProofByHash(*)#0.Proof[0].Hashes || g:trillian/ctfe.emptyProof",
 			})
+			if a := baseAlloc(built); a != nil {
+				c06RelayedOrEmpty(r, fn, "proof:rsp.AuditPath", "proof:rsp.AuditPath.relayed", a, "AuditPath", "iface(trillian.TrillianLogClient).GetInclusionProofByHash(*)#0.Proof[0].Hashes", j)
+			}
 		}
 	}
 	if fn := r.Fn("trillian/ctfe.getEntryAndProof"); fn != nil {
@@ -326,6 +347,139 @@ func c06Forwarding(r *Run) {
 		}
 		r.ErrorsGate(fn, "writeSTH:errors", "*", 3)
 	}
+}
+
+// c06RelayedOrEmpty decides "field `field` of the response built in local a carries the backend's hash list H, and
+// nothing but the module's empty proof ever stands in for it":
+//   - every value stored into the field is, on each alternative a merge (φ) of values can take, H or
+//     g:trillian/ctfe.emptyProof (key);
+//   - there is a store whose value is H itself whenever H is non-nil — a plain store of H, or a merge that the test
+//     of H against nil resolves to H (the shape `if H == nil {empty} else {H}` leaves behind, written out or
+//     inlined from a helper) (keyRelayed).
+func c06RelayedOrEmpty(r *Run, fn *ssa.Function, key, keyRelayed string, a *ssa.Alloc, field, H string, at ssa.Instruction) {
+	const empty = "g:trillian/ctfe.emptyProof"
+	sts := r.StoresTo(fn, "&("+r.D.allocName(a)+"."+field+")")
+	if len(sts) == 0 {
+		r.Fail(key, r.FnPos(fn), fmt.Sprintf("expected >= 1 stores to %s.%s in %s, found 0", r.D.allocName(a), field, FuncName(fn)))
+	}
+	// the valuation "the backend's list is non-nil" (when the code tests the list at all)
+	var nonNil Sigma
+	if s, _, err := r.bindSets(fn, nil, nil, AtomSet{nilAtom(H), "non"}); err == nil {
+		nonNil = s
+	}
+	relayed := ""
+	for _, st := range sts {
+		got := r.D.D(st.Val)
+		ok := true
+		for _, leaf := range phiLeaves(st.Val) {
+			if d := r.D.D(leaf); !glob(H, d) && d != empty {
+				ok = false
+			}
+		}
+		r.Check(key, ok, r.Where(st), field+" ← "+got)
+		if under := r.ValueUnder(fn, st.Val, nonNil); glob(H, under) {
+			relayed = under
+		}
+	}
+	r.Check(keyRelayed, relayed != "", r.Where(at), "the backend's proof hashes are relayed whenever the backend sent any: "+relayed)
+}
+
+// c06OneShotSHA256: v, an argument of the call use, is `d[:]` — the full slice, no bounds — of a local [32]byte
+// array d that holds the result of exactly one sha256.Sum256 call: d is written by one whole-value store of that
+// result, executed before use on every path, and is otherwise only loaded or sliced, every slice of it being
+// nothing but an argument of use (so nothing can alter the digest between the hashing and use). It returns the
+// Sum256 call (whose argument is the data hashed); nil when that cannot be established.
+func c06OneShotSHA256(fn *ssa.Function, v ssa.Value, use ssa.CallInstruction) ssa.CallInstruction {
+	sl, ok := v.(*ssa.Slice)
+	if !ok || sl.Low != nil || sl.High != nil || sl.Max != nil {
+		return nil
+	}
+	a, ok := sl.X.(*ssa.Alloc)
+	if !ok || a.Referrers() == nil {
+		return nil
+	}
+	arr, ok := a.Type().(*types.Pointer).Elem().Underlying().(*types.Array)
+	if !ok || arr.Len() != 32 {
+		return nil
+	}
+	var st *ssa.Store
+	for _, ref := range *a.Referrers() {
+		switch x := ref.(type) {
+		case *ssa.DebugRef:
+		case *ssa.UnOp:
+			if x.Op != token.MUL {
+				return nil
+			}
+		case *ssa.Store:
+			if x.Addr != ssa.Value(a) || st != nil {
+				return nil
+			}
+			st = x
+		case *ssa.Slice:
+			if x.Referrers() == nil {
+				return nil
+			}
+			for _, r2 := range *x.Referrers() {
+				if _, dbg := r2.(*ssa.DebugRef); !dbg && r2 != ssa.Instruction(use) {
+					return nil
+				}
+			}
+		default:
+			return nil
+		}
+	}
+	if st == nil || !c06InstrDominates(st, use) {
+		return nil
+	}
+	c, ok := st.Val.(*ssa.Call)
+	if !ok || CalleeOf(c) != "sha256.Sum256" {
+		return nil
+	}
+	return c
+}
+
+// c06IsValueStored: v, an argument of the call at, is the value that a store to the address addrTerm put there —
+// the same SSA value, or a second read of the same local with nothing written into that local in between — and
+// that store executes before at on every path.
+func c06IsValueStored(r *Run, fn *ssa.Function, v ssa.Value, addrTerm string, at ssa.CallInstruction) bool {
+	for _, st := range r.StoresTo(fn, addrTerm) {
+		if !c06InstrDominates(st, at) {
+			continue
+		}
+		if st.Val == v {
+			return true
+		}
+		l1, ok1 := st.Val.(*ssa.UnOp)
+		l2, ok2 := v.(*ssa.UnOp)
+		if !ok1 || !ok2 || l1.Op != token.MUL || l2.Op != token.MUL || l1.X != l2.X || l1.Block() != l2.Block() {
+			continue
+		}
+		a, ok := l1.X.(*ssa.Alloc)
+		if !ok {
+			continue
+		}
+		lo, hi := instrIdx(l1), instrIdx(l2)
+		if lo > hi {
+			lo, hi = hi, lo
+		}
+		clean := true
+		for _, in := range l1.Block().Instrs[lo:hi] {
+			if s, isStore := in.(*ssa.Store); isStore && addrBase(s.Addr) == a {
+				clean = false
+			}
+			if c, isCall := in.(ssa.CallInstruction); isCall {
+				for _, arg := range c.Common().Args {
+					if addrBase(arg) == a {
+						clean = false
+					}
+				}
+			}
+		}
+		if clean {
+			return true
+		}
+	}
+	return false
 }
 
 func c06Client(r *Run) {
